@@ -78,7 +78,10 @@ def box_hook(rn, ev, call, name, recv, args, kwargs):
     if name == "Point2D":
         return point2d(*args)
     if name == "Box":
-        return BoxS(args[0], args[1])
+        both = list(args) + [kwargs[k] for k in ("lowpt", "toppt") if k in kwargs][len(args) and 0:]
+        if len(args) < 2:
+            both = [args[0] if args else kwargs.get("lowpt"), kwargs.get("toppt") if len(args) < 2 else args[1]]
+        return BoxS(both[0], both[1])
     return NotImplemented
 
 
